@@ -167,3 +167,13 @@ def p2(ctx):
 
 
 RULES = [n1, n2, n3, n4, p2]
+
+
+@rule("H10", doc="names invented for uncovered slots are brand-new, never derived from existing spellings (shared with C03.H3 / H10)")
+def h10(ctx):
+    from . import c03
+    c03.h3(ctx)
+    c03.h10(ctx)
+
+
+RULES.append(h10)
